@@ -513,6 +513,9 @@ class Outcome:
         return f"<{self.kind} {show(self.value) if self.value is not None else ''} if {show(self.cond)}>"
 
 
+API_MAPPING_EXEMPT = ("get_node_iterator", "get_branch_iterator")      # the graph's own iterators are read by name (rules decide what they range over)
+
+
 class Frame:
     def __init__(self, fn: Optional[FunctionInfo], module: ModuleInfo, env: Dict[str, Term], self_cls: Optional[ClassInfo],
                  depth: int):
@@ -724,6 +727,17 @@ class Evaluator:
                 continue
             if isinstance(st, ast.Return):
                 v = self.expr(st.value, fr) if st.value is not None else NONE
+                if v[0] == "localdef" and v[1] in self.localdefs and fr.depth > 0:
+                    # a nested function that leaves the function it was defined in: it keeps the names of THAT function (closure), not of wherever it is called
+                    d_ = self.localdefs[v[1]]
+                    body_ = [x for x in d_.body if not (isinstance(x, ast.Expr) and isinstance(x.value, ast.Constant))]
+                    if len(body_) == 1 and isinstance(body_[0], ast.Return) and body_[0].value is not None and not d_.decorator_list \
+                            and not d_.args.vararg and not d_.args.kwarg and not d_.args.kwonlyargs:
+                        lam_ = ast.Lambda(args=d_.args, body=body_[0].value)
+                        ast.copy_location(lam_, d_)
+                        key_ = f"def {d_.name}@{getattr(fr.fn, 'qualname', '?')}:" + "|".join(f"{k_}={show(x_)[:40]}" for k_, x_ in sorted(fr.env.items()) if isinstance(x_, tuple) and k_ != d_.name)
+                        self.lambdas[key_] = (lam_, fr.env, fr)
+                        v = ("lambda", key_)
                 outs.append(Outcome(live, "return", v, st))
                 live = FALSE
                 continue
@@ -1300,6 +1314,35 @@ class Evaluator:
     def truthy(self, v: Term) -> Term:
         return v
 
+    def _mapping_generator(self, f: FunctionInfo, recv: Term, cls: ClassInfo, fr: Frame) -> Optional[Term]:
+        """``def m(self): for x in <D over self>: yield <e over x>`` (nothing else) called as ``recv.m()`` is the generator ``(e(x) for x in D)``: a walk over the
+        mapped iterator is a walk over D"""
+        body = [st for st in f.node.body if not (isinstance(st, ast.Expr) and isinstance(st.value, ast.Constant))]
+        if len(body) != 1 or not isinstance(body[0], ast.For) or body[0].orelse or len(f.params) != 1:
+            return None
+        loop = body[0]
+        if len(loop.body) != 1 or not isinstance(loop.body[0], ast.Expr) or not isinstance(loop.body[0].value, ast.Yield) or loop.body[0].value.value is None \
+                or not isinstance(loop.target, ast.Name):
+            return None
+        elt = loop.body[0].value.value
+        if isinstance(elt, ast.Name) and elt.id == loop.target.id:
+            return None          # an identity re-yield: left to the readers of the iterator itself
+        if fr.depth >= self.max_depth:
+            return None
+        fr2 = Frame(f, f.module, {f.self_name: recv}, cls, fr.depth + 1)
+        try:
+            dom = self.expr(loop.iter, fr2)
+            b = ("bound", fr.depth, 0, show(dom))
+            ec = self.elem_type(dom)
+            if ec is not None:
+                self.set_type(b, ec)
+            env2 = dict(fr2.env)
+            env2[loop.target.id] = b
+            img = self.expr(elt, Frame(f, f.module, env2, cls, fr.depth + 1))
+        except Unsupported:
+            return None
+        return ("comp", "gen", img, ((dom, ()),))
+
     def _is_warn_call(self, e: ast.AST, fr: Frame) -> bool:
         """``warn(..)`` / ``warnings.warn(..)`` of the standard library (the name is not rebound locally)"""
         if not isinstance(e, ast.Call) or fr.module is None:
@@ -1728,6 +1771,10 @@ class Evaluator:
             bc = self.type_of(base)
             if bc is not None:
                 fs = bc.resolve_all(name)
+                if len(fs) == 1 and fs[0].kind == "method" and not args and not kwargs and name not in API_MAPPING_EXEMPT:
+                    mg = self._mapping_generator(fs[0], base, bc, fr)
+                    if mg is not None:
+                        return mg
                 if len(fs) == 1 and fs[0].kind in ("method", "staticmethod", "classmethod"):
                     return self.call_function(fs[0], base, bc, args, kwargs, fr)
             if base[0] == "const" and isinstance(base[1], str) and not kwargs and all(a[0] == "const" for a in args):
